@@ -35,6 +35,7 @@ type c08Case struct {
 	NIn      int
 	Explicit bool
 	Nested   bool // btc-lnd: the last funding input is nested segwit (P2SH-P2WKH)
+	Reject   bool // lbtc-elementsd: the first sendrawtransaction is refused (-26), later fundings place the change elsewhere
 	Amount   uint64
 	Premium  int64
 	Version  uint8
@@ -42,7 +43,7 @@ type c08Case struct {
 }
 
 func (c c08Case) String() string {
-	return fmt.Sprintf("backend=%s role=%s funding=%s/in%d explicit=%v nested_input=%v amount=%d premium=%d protocol_version=%d", c.Backend, c.Role, c.Layout, c.NIn, c.Explicit, c.Nested, c.Amount, c.Premium, c.Version)
+	return fmt.Sprintf("backend=%s role=%s funding=%s/in%d explicit=%v first_broadcast_refused=%v nested_input=%v amount=%d premium=%d protocol_version=%d", c.Backend, c.Role, c.Layout, c.NIn, c.Explicit, c.Reject, c.Nested, c.Amount, c.Premium, c.Version)
 }
 
 func (c c08Case) chain() string {
@@ -78,7 +79,7 @@ func c08Run(acc *c03Acc, c c08Case) {
 		loc = onchain.NewLiquidOnChain(lw, c03Net)
 	case "lbtc-elementsd":
 		lw = &c03LqWallet{tag: seed, fund: c03LqFund{Layout: c.Layout, NIn: c.NIn, Explicit: c.Explicit}, feeMode: "100"}
-		ed = &c08Elementsd{w: lw}
+		ed = &c08Elementsd{w: lw, rejectFirst: c.Reject}
 		loc = onchain.NewLiquidOnChain(wallet.VerifNewRpcWallet(ed, "w"), c03Net)
 	}
 	if loc != nil {
@@ -107,6 +108,11 @@ func c08Run(acc *c03Acc, c c08Case) {
 	ev := (&swap.CreateAndBroadcastOpeningTransaction{}).Execute(services, sd)
 	acc.step(1)
 	tag := "chain=" + c.chain()
+	if ev != swap.Event_ActionSucceeded && c.Reject && ed != nil && len(ed.sent) == 0 && sd.OpeningTxBroadcasted == nil && len(sd.NextMessage) == 0 {
+		// elementsd refused the only broadcast and the node announces nothing: nothing to compare
+		acc.out("first_broadcast_refused:nothing_broadcast_nothing_announced")
+		return
+	}
 	if ev != swap.Event_ActionSucceeded {
 		acc.fail("C08", "action_failed:"+tag+":backend="+c.Backend, fmt.Sprintf("%s: event %v, error %v", c, ev, sd.LastErr))
 		return
@@ -341,13 +347,25 @@ func c08Cases(tier string) ([]c08Case, map[string]any) {
 		lq(lqLayouts, []int{1, 2, 3}, c03Amounts, premiums, []uint8{7}, false)
 		lq([]string{"SCF", "CSF", "CFS"}, []int{1}, c03Amounts, premiums, []uint8{6}, false)
 		lq([]string{"CSF"}, []int{1}, []uint64{1_000_000}, premiums, []uint8{7}, true)
-		blocks = []string{"8 layouts x inputs 1..3 x 3 amounts x 3 premiums x 2 roles x version 7", "3 layouts x 3 amounts x 3 premiums x 2 roles x version 6", "explicit swap output: CSF x 3 premiums x 2 roles"}
+		for _, l := range lqLayouts {
+			for _, r := range roles {
+				for _, n := range []int{1, 2} {
+					add(c08Case{Backend: "lbtc-elementsd", Role: r, Layout: l, NIn: n, Reject: true, Amount: 1_000_000, Premium: 7, Version: 7})
+				}
+			}
+		}
+		blocks = []string{"elementsd refuses the first broadcast (-26), later fundings have the change on the other side: 8 layouts x inputs 1..2 x 2 roles", "8 layouts x inputs 1..3 x 3 amounts x 3 premiums x 2 roles x version 7", "3 layouts x 3 amounts x 3 premiums x 2 roles x version 6", "explicit swap output: CSF x 3 premiums x 2 roles"}
 	} else {
 		lq(lqLayouts, []int{1}, c03Amounts, premiums, []uint8{7}, false)
 		lq([]string{"SCF", "CSF"}, []int{1, 2, 3}, c03Amounts, []int64{0}, []uint8{7}, false)
 		lq([]string{"CSF"}, []int{1}, []uint64{1_000_000}, []int64{0}, []uint8{7}, true)
 		lq([]string{"CSF"}, []int{2}, []uint64{1000}, []int64{-7, 7}, []uint8{6}, false)
-		blocks = []string{"8 layouts x 3 amounts x 3 premiums x 2 roles (1 input, version 7)", "layouts SCF,CSF x inputs 1..3 x 3 amounts x 2 roles (premium 0)", "CSF x premium -7,+7 x 2 roles x version 6 (1000 sat, 2 inputs)", "explicit swap output: CSF x 2 roles"}
+		for _, l := range []string{"SCF", "CSF", "CFS", "FSC"} {
+			for _, r := range roles {
+				add(c08Case{Backend: "lbtc-elementsd", Role: r, Layout: l, NIn: 1, Reject: true, Amount: 1_000_000, Premium: 7, Version: 7})
+			}
+		}
+		blocks = []string{"elementsd refuses the first broadcast (-26), later fundings have the change on the other side: 4 layouts x 2 roles", "8 layouts x 3 amounts x 3 premiums x 2 roles (1 input, version 7)", "layouts SCF,CSF x inputs 1..3 x 3 amounts x 2 roles (premium 0)", "CSF x premium -7,+7 x 2 roles x version 6 (1000 sat, 2 inputs)", "explicit swap output: CSF x 2 roles"}
 	}
 	return cases, map[string]any{
 		"btc(full product)": map[string]any{"layouts(S=swap,C=change,E=wallet output with value==opening amount)": c03BtcLayouts, "inputs": []int{1, 2, 3}, "last_input_kind": []string{"native segwit (P2WKH)", "nested segwit (P2SH-P2WKH: the signed transaction has a scriptSig, so its id differs from the unsigned one)"}, "amounts": c03Amounts, "premiums": premiums, "roles": roles, "protocol_versions": []int{6, 7}},
